@@ -3,6 +3,7 @@ import SluProofs.Lemmas.Order
 import SluProofs.Lemmas.EtreeDef
 import SluProofs.Lemmas.Relax
 import SluProofs.Lemmas.HeapRelax
+import SluProofs.Lemmas.PostorderNR
 /-
 C10 — Column orderings are permutations; elimination tree exact and postordered.
 
@@ -645,5 +646,47 @@ example : UF #[0, 0, 1] 3 (fun _ => 0) id := by
      | 0, _ => decide
      | 1, _ => decide
      | 2, _ => decide)
+
+/-! ### The postorder as executed: `nr_etdfs`, the loop form (Model/PostorderNR.lean) -/
+
+/-- **The loop form equals the recursive form.**  `TreePostorder` as the library executes it — the push loop that
+builds `first_kid/next_kid`, then `nr_etdfs` walking them with `parent[]`, one transition per evaluation of a loop
+head — returns, on EVERY heap-ordered forest of any size, the array of the recursive depth-first numbering
+`treePostorder` (about which `treePostorder_spec`, `spPreorder_spec`, `relaxSnode_ranges` speak), and reaches one of
+its two exits within `2n + 3` loop heads. -/
+theorem treePostorderNR_eq (n : Nat) (parent : Array Nat) (h : Heap n parent) :
+    NR.treePostorderNR n parent = treePostorder n parent ∧ NR.finished n parent = true := by
+  unfold NR.treePostorderNR NR.finished
+  rw [NR.nrEtdfs_eq h (NR.buildKids_ok h)]
+  refine ⟨?_, rfl⟩
+  by_cases hn : n = 0
+  · subst hn
+    rw [← NR.writeList_order_eq_treePostorder h, order_eq]
+    simp [kids, NR.writeList]
+  · simp only [hn, if_false]
+    exact NR.writeList_order_eq_treePostorder h
+
+/-- **What the walk needs from its work arrays.**  `next_kid` may hold anything on entry except that the slot of the
+dummy root, which `TreePostorder` never assigns, must not be -1 (the library gets 0 from `mxCallocInt`): for every such
+initial content the result is the recursive numbering. -/
+theorem treePostorderNR_any_work_area (n : Nat) (parent : Array Nat) (h : Heap n parent) (next0 : Array Int)
+    (hs : next0.size = n + 1) (hroot : next0.getD n 0 ≠ -1) :
+    (NR.nrEtdfs n parent (NR.buildKidsFrom next0 n parent)).post = treePostorder n parent := by
+  rw [NR.nrEtdfs_eq h (NR.buildKidsFrom_ok next0 h hs hroot)]
+  by_cases hn : n = 0
+  · subst hn
+    rw [← NR.writeList_order_eq_treePostorder h, order_eq]
+    simp [kids, NR.writeList]
+  · simp only [hn, if_false]
+    exact NR.writeList_order_eq_treePostorder h
+
+/-- ... and the condition on that slot is needed: with -1 there (what an uninitialised block may hold) the walk on the
+one-vertex tree reads `parent[n]` and numbers a vertex twice. -/
+theorem treePostorderNR_root_slot_needed :
+    (NR.nrEtdfs 1 #[1] (NR.buildKidsFrom #[0, -1] 1 #[1])).post ≠ treePostorder 1 #[1] := by
+  rw [← (treePostorderNR_eq 1 #[1] (by unfold Heap; decide)).1]; decide
+
+example : Heap 6 #[3, 3, 6, 4, 6, 6] := by unfold Heap; decide
+example : NR.treePostorderNR 6 #[3, 3, 6, 4, 6, 6] = #[1, 2, 0, 3, 4, 5, 6] := by decide
 
 end Slu.Order
